@@ -1,13 +1,23 @@
 #!/bin/sh
-# usage: tools/try_seed.sh <seed-id> <property> [extra check args]   -- applies the seeded patch to /repo, runs the check, reverts
+# usage: tools/try_seed.sh <seed-id> <property> [extra check args]
+# Applies the seeded patch to a scratch copy of /repo's working tree (so /repo itself is never
+# touched and other checks can run meanwhile), runs the property's check against it via
+# VERIF_REPO, prints the verdict lines.  Set TRY_SEED_IN_PLACE=1 to apply to /repo itself.
 s=$1; p=$2; shift 2
-cd /repo || exit 9
-if ! git apply /verif/seeded/$s/patch.diff 2>/dev/null; then
-  patch -p1 --no-backup-if-mismatch < /verif/seeded/$s/patch.diff >/dev/null || { echo "PATCH DOES NOT APPLY"; git checkout -- .; exit 9; }
+if [ -n "$TRY_SEED_IN_PLACE" ]; then
+  d=/repo
+else
+  d=/tmp/seedrepo-$s
+  rm -rf "$d"; mkdir -p "$d"
+  rsync -a --exclude /target --exclude .git /repo/ "$d/"
+fi
+cd "$d" || exit 9
+if ! patch -p1 --no-backup-if-mismatch < /verif/seeded/$s/patch.diff >/dev/null 2>&1; then
+  echo "PATCH DOES NOT APPLY"; [ -n "$TRY_SEED_IN_PLACE" ] && git -C /repo checkout -- .; exit 9
 fi
 cd /verif
-VERIF_NO_REPLAY=${VERIF_NO_REPLAY-1} ./check $p quick "$@" > /tmp/try_$s.log 2>&1
+VERIF_REPO=$d VERIF_EVIDENCE_SUFFIX=.seed VERIF_NO_REPLAY=${VERIF_NO_REPLAY-1} ./check $p quick "$@" > /tmp/try_$s.log 2>&1
 rc=$?
-git -C /repo checkout -- .
+[ -n "$TRY_SEED_IN_PLACE" ] && git -C /repo checkout -- . || rm -rf "$d"
 grep -E "VIOLATION|UNDECIDED|^\[" /tmp/try_$s.log | cut -c1-300
 echo "seed=$s property=$p rc=$rc"
